@@ -96,6 +96,15 @@ class Prop:
                 ch = [stream[a:b] for a, b in zip(pts, pts[1:])]
                 lines.append('sock ' + ' '.join(c.hex() for c in ch))
                 meta.append(ch)
+        # many lines in ONE packet (a burst of keep-alive line breaks behind a sentence; a large receive buffer full of
+        # short sentences): more than a thousand, several thousand
+        s1 = b'!AIVDM,1,1,,A,15M67FC000G?ufbE`FepT@3n00Sa,0*5C\r\n'
+        for burst in (b'\n' * 1100, b'\r\n' * 1500, b'a\n' * 2100, (s1 * 1300)):
+            stream = s1 + burst + s1
+            for size in (len(stream), 4096, 65536):
+                ch = [stream[i:i + size] for i in range(0, len(stream), size)]
+                lines.append('sock ' + ' '.join(c.hex() for c in ch))
+                meta.append(ch)
         outs = ctx.corr(lines, impl.step, 'sock', nontrivial=lambda l, o: l.count(' ') > 1 and o != '[]')
         for ch, o in zip(meta, outs):
             self.check(ctx, ch, o)
